@@ -61,7 +61,18 @@ impl Continuous for ChiSquared {
             return 0.;
         }
         let half_k = (self.dof as f64) / 2.;
-        1. / (2_f64.powf(half_k) * gamma(half_k)) * x.powf(half_k - 1.) * (-x / 2.).exp()
+        let norm = 2_f64.powf(half_k) * gamma(half_k);
+        if x == 0. {
+            // the limit from the right: 1/2 for two degrees of freedom, 0 for more
+            return if self.dof == 2 { 1. / norm } else { 0. };
+        }
+        if x == f64::INFINITY {
+            return 0.;
+        }
+        // x^(dof/2 - 1) overflows far in the upper tail long before the density does (dof = 199,
+        // x = 1396 gave inf, dof = 150, x = 17470 gave NaN), so the factors that depend on x are
+        // combined in log space
+        ((half_k - 1.) * x.ln() - x / 2.).exp() / norm
     }
 }
 
